@@ -407,7 +407,47 @@ impl Sys {
                         "panic".into()
                     }
                 };
-                rec.line(format!("msg {}", hex(bytes)), ans);
+                // S-level oracle: only the exact encodings `Header::encode` produces are accepted
+                let mhdr = aranya_fast_channels::Header::PACKED_SIZE;
+                let want = if bytes.len() < mhdr {
+                    "err InvalidSize".to_string()
+                } else {
+                    let v = u16::from_le_bytes([bytes[0], bytes[1]]);
+                    let t = u16::from_le_bytes([bytes[2], bytes[3]]);
+                    if v != Version::V1 as u16 {
+                        "err UnknownVersion".into()
+                    } else if t == MsgType::Data as u16 {
+                        format!("data {}", bytes.len() - mhdr)
+                    } else if t == MsgType::Control as u16 {
+                        format!("control {}", bytes.len() - mhdr)
+                    } else {
+                        "err InvalidMsgType".into()
+                    }
+                };
+                let req = format!("msg {}", hex(bytes));
+                if ans != want {
+                    rec.oracle_fail_with(format!("Message::try_parse({}) = `{ans}`, the header format says `{want}`", hex(bytes)), vec!["new".into(), req.clone()]);
+                }
+                // the header parser itself must agree and re-encode to the same bytes
+                if bytes.len() >= mhdr {
+                    let mut h4 = [0u8; 4];
+                    h4.copy_from_slice(&bytes[..4]);
+                    match aranya_fast_channels::Header::try_parse(&h4) {
+                        Ok(h) => {
+                            let mut out = [0u8; 4];
+                            let enc_ok = h.encode(&mut out).is_ok();
+                            if !enc_ok || out != h4 || want.starts_with("err") {
+                                rec.oracle_fail_with(format!("Header::try_parse accepted {} which is not an encoding of a header", hex(&h4)), vec!["new".into(), req.clone()]);
+                            }
+                        }
+                        Err(_) => {
+                            if !want.starts_with("err") {
+                                rec.oracle_fail_with(format!("Header::try_parse rejected the valid header {}", hex(&h4)), vec!["new".into(), req.clone()]);
+                            }
+                        }
+                    }
+                }
+                rec.line(req, ans);
             }
         }
         reply
@@ -559,6 +599,8 @@ fn run_generated(args: &Args, rec: &mut Recorder) {
         let a = g.chan(4, 4, 0);
         let b = g.chan(4, 4, 0); // same label, other key
         let m = g.chan(5, 6, 0); // the two sides disagree on the label
+        // labels that agree in all but one byte (low / middle / high byte of the label id)
+        let near = [g.chan(5, 5 + 256, 0), g.chan(5, 5 + (1 << 56), 0), g.chan(4, 5, 0)];
         let la = g.rng.below(40) as usize;
         let (p1, p2, p3) = (g.rng.bytes(la), g.rng.bytes(la), g.rng.bytes(la));
         let w1 = g.seal(a, p1, false);
@@ -568,6 +610,11 @@ fn run_generated(args: &Args, rec: &mut Recorder) {
         g.open_both(b, &w1, "foreign-channel");
         g.open_both(a, &wb, "foreign-channel");
         g.open_both(m, &wm, "label-mismatch");
+        for c in near {
+            let pt = g.rng.bytes(la);
+            let w = g.seal(c, pt, c % 2 == 0);
+            g.open_both(c, &w, "label-near-miss");
+        }
         // header of one message on the body of another (same length)
         let mut s = w1.clone();
         let n = s.len();
@@ -577,6 +624,17 @@ fn run_generated(args: &Args, rec: &mut Recorder) {
         let mut s = w1.clone();
         s[n - HDR..].copy_from_slice(&u64::MAX.to_le_bytes());
         g.open_both(a, &s, "seq-max-header");
+        // every byte of the sequence-number header replaced on its own: the other seven agree
+        for i in 0..HDR {
+            for val in [0x01u8, 0x80, 0xff] {
+                let mut s = w2.clone();
+                let k = s.len() - HDR + i;
+                if s[k] != val {
+                    s[k] = val;
+                    g.open_both(a, &s, "seq-header-byte");
+                }
+            }
+        }
         g.open_both(a, &w1, "genuine");
         g.open_both(a, &w2, "genuine");
         // removed channel
@@ -627,8 +685,25 @@ fn run_generated(args: &Args, rec: &mut Recorder) {
             g.x(Cmd::Msg { bytes: s });
         }
     }
+    // every value of each 16-bit header field, the other field valid: near misses that agree
+    // with a valid value in one byte (0x0101, 0x0201, 0x6f00, 0x0054, …) are all in here
+    for t in 0..=u16::MAX {
+        let mut s = (Version::V1 as u16).to_le_bytes().to_vec();
+        s.extend_from_slice(&t.to_le_bytes());
+        if t % 4096 == 7 {
+            s.extend_from_slice(&[9, 9, 9]);
+        }
+        g.x(Cmd::Msg { bytes: s });
+    }
+    g.rec.count_n("msg:every-msg-type", 65536);
+    for v in 0..=u16::MAX {
+        let mut s = v.to_le_bytes().to_vec();
+        s.extend_from_slice(&(1 + (v & 1)).to_le_bytes());
+        g.x(Cmd::Msg { bytes: s });
+    }
+    g.rec.count_n("msg:every-version", 65536);
     for t in 0..5u16 {
-        for v in [Version::V1 as u16, 0, 0x6f55, 0x546f] {
+        for v in [0u16, 0x6f55, 0x546f, 0x6e54, 0x7054] {
             let mut s = v.to_le_bytes().to_vec();
             s.extend_from_slice(&t.to_le_bytes());
             let n = g.rng.below(5) as usize;
